@@ -340,7 +340,26 @@ def main(ctx):
     thunks += [(lambda w=w: tlc.run("Guards", os.path.join(ctx.scratch, "Guards_%s.cfg" % w), ctx.scratch, timeout=600, workers=2))
                for w in wnames]
     thunks.append(lambda: run_workers("harness.drivers.c07", "work", jobs, ctx.scratch, nproc=12))
+    # the composed pipeline model (qualification -> state_hold -> guards) and its witnesses
+    pcfg = os.path.join(ctx.scratch, "Pipeline_mc.cfg")
+    pbase = open(os.path.join(tlc.SPEC_DIR, "Pipeline.cfg")).read()
+    if not ctx.quick:
+        pbase = pbase.replace("MaxT = 9", "MaxT = 12").replace("MaxCh = 4", "MaxCh = 5")
+    open(pcfg, "w").write(pbase)
+    pw = ("W_NoGuardRejectAfterHold", "W_NoBChangedDuringHold")
+    for w in pw:
+        open(os.path.join(ctx.scratch, "Pipeline_%s.cfg" % w), "w").write(
+            "SPECIFICATION Spec\nCONSTANTS MaxT = 9\n MaxCh = 4\nINVARIANT %s\nCHECK_DEADLOCK FALSE\n" % w)
+    thunks.append(lambda: tlc.run("Pipeline", pcfg, ctx.scratch, timeout=3000, workers=4))
+    thunks += [(lambda w=w: tlc.run("Pipeline", os.path.join(ctx.scratch, "Pipeline_%s.cfg" % w), ctx.scratch, timeout=900, workers=2)) for w in pw]
     outs = parallel(thunks)
+    pres = outs[5]
+    if not pres.ok:
+        ctx.report({"clause": "model:Pipeline:" + pres.violated}, "Pipeline.tla violates %s" % pres.violated, {"cex": pres.cex})
+    ctx.add_tlc(pres, "Pipeline(state_hold x guards x b changes)")
+    for w, wres in zip(pw, outs[6:8]):
+        if wres.ok:
+            raise MachineryFailure("witness %s holds: the pipeline model never exercises the case" % w)
     res = outs[0]
     if not res.ok:
         ctx.report({"clause": "model:" + res.violated}, "Guards.tla violates %s" % res.violated, {"cex": res.cex})
@@ -348,7 +367,7 @@ def main(ctx):
     for wname, wres in zip(wnames, outs[1:4]):
         if wres.ok:
             raise MachineryFailure("witness %s holds: the model never exercises the case" % wname)
-    ctx.cov["witnesses_violated_as_expected"] = len(wnames)
+    ctx.cov["witnesses_violated_as_expected"] = len(wnames) + 2
     cases = [x for r in outs[4] for x in r]
     res, nm = validate(ctx, cases, "main")
     # composed pipeline: state_hold + @state_active / @time_active / hold_off (guards evaluated when the hold ends,
